@@ -88,6 +88,7 @@ func (watcher *RequestWatcher) StopAll() {
 		// goroutine removes them; signalling them again would panic with a
 		// negative WaitGroup counter.
 		if request.StartProcessing() {
+			verifhook.Event("queue.expired", request.GetID(), "drain")
 			request.SetProcessedTimeout()
 		}
 	}
